@@ -449,10 +449,17 @@ fn is_split_required(transform: &SqlTransform, following: &mut HashSet<String>) 
 
         // Sort will be pushed down the CTEs, so there is no point in splitting for it.
         // Super(Sort(_)) => contains_any(following, ["From", "Join", "Compute", "Aggregate"]),
-        Super(Take(_)) => contains_any(
-            following,
-            ["From", "Join", "Compute", "Filter", "Aggregate", "Sort"],
-        ),
+        Super(Take(take)) => {
+            contains_any(
+                following,
+                ["From", "Join", "Compute", "Filter", "Aggregate", "Sort"],
+            )
+            // DISTINCT is evaluated before ORDER BY / LIMIT and its SELECT list cannot carry the
+            // sort keys of the take (they would make duplicates of the distinct columns survive,
+            // and an ORDER BY of a SELECT DISTINCT may only name selected columns): a sorted take
+            // in front of a distinct gets a SELECT of its own
+            || (!take.sort.is_empty() && contains_any(following, ["Distinct", "DistinctOn"]))
+        }
         SqlTransform::DistinctOn(_) => contains_any(
             following,
             [
@@ -663,28 +670,18 @@ pub(super) fn get_requirements(
             // Since there is aggregation anyway, columns can have any complexity
             .allow_up_to(Complexity::highest()),
 
-        Super(Transform::Take(rq::Take { range, sort, .. })) => {
-            let range = [&range.start, &range.end]
-                .into_iter()
-                .flatten()
-                .map(Requirements::from_expr)
-                .fold(Requirements::default(), Requirements::append);
-            if following.contains("Distinct") {
-                // a DISTINCT of this SELECT drops the sorting (postprocess clears it), so no
-                // ORDER BY will name the keys; SELECTing them would make them columns of the
-                // SELECT DISTINCT, and duplicates of the distinct columns would survive
-                range
-            } else {
-                // the sort embedded in the take becomes the ORDER BY of this SELECT
-                // (postprocess), which refers to SELECTed columns: require its keys like
-                // those of a Sort
-                range.append(
-                    Requirements::from_cids(sort.iter().map(|s| &s.column))
-                        .allow_up_to(Complexity::Aggregation)
-                        .should_select(true),
-                )
-            }
-        }
+        Super(Transform::Take(rq::Take { range, sort, .. })) => [&range.start, &range.end]
+            .into_iter()
+            .flatten()
+            .map(Requirements::from_expr)
+            .fold(Requirements::default(), Requirements::append)
+            // the sort embedded in the take becomes the ORDER BY of this SELECT (postprocess),
+            // which refers to SELECTed columns: require its keys like those of a Sort
+            .append(
+                Requirements::from_cids(sort.iter().map(|s| &s.column))
+                    .allow_up_to(Complexity::Aggregation)
+                    .should_select(true),
+            ),
 
         SqlTransform::Join { filter, .. } => Requirements::from_expr(filter),
 
